@@ -87,7 +87,7 @@ class PlanGen:
         rng, S = self.rng, self.S
         body = []
         idem = getattr(self, "idempotent", False)
-        if idem or rng.random() < checkpoint:
+        if (idem and checkpoint > 0) or rng.random() < checkpoint:
             body.append(msg(S, "checkpoint"))
         if self.motors and (idem or rng.random() < move):
             g = self.group()
@@ -118,7 +118,7 @@ class PlanGen:
             body.append(msg(S, "save", None, run=run))
         return body
 
-    def run_block(self, run=None, npoints=None, monitor=0.25, fly=0.3, sleep=0.2, md=None, fixed_devices=True):
+    def run_block(self, run=None, npoints=None, monitor=0.25, fly=0.3, sleep=0.2, md=None, fixed_devices=True, checkpoint=0.85):
         rng, S = self.rng, self.S
         body = [msg(S, "open_run", None, run=run, **(md or {}))]
         mon = None
@@ -137,9 +137,9 @@ class PlanGen:
         extra = [m for m in self.motors if rng.random() < 0.5]
         for _ in range(n):
             if fixed_devices:
-                body.extend(self.point(run=run, devices=devs, also_read=extra))
+                body.extend(self.point(run=run, devices=devs, also_read=extra, checkpoint=checkpoint))
             else:
-                body.extend(self.point(run=run))
+                body.extend(self.point(run=run, checkpoint=checkpoint))
             if rng.random() < sleep:
                 body.append(msg(S, "sleep", None, rng.choice([0.0, 0.1, 1.0])))
         if fl:
@@ -172,9 +172,33 @@ class PlanGen:
         nruns = runs if runs is not None else rng.choice([1, 1, 1, 2])
         if nruns >= 2 and rng.random() < nested:
             a = self.run_block(run="A", monitor=0.0, fly=0.0)
-            b = self.run_block(run="B", monitor=0.0, fly=0.0)
-            # interleave: open A, open B, A points.., B points.., close B, close A
-            body = [a[0], b[0]] + a[1:-1] + b[1:-1] + [b[-1], a[-1]]
+            inside = rng.random() < 0.5
+            # a run nested inside another one is often a one-shot 'snapshot' without a checkpoint of its own
+            b = self.run_block(run="B", monitor=0.0, fly=0.0, **({"npoints": rng.choice([0, 1, 1]), "checkpoint": 0.0, "sleep": 0.0} if inside and rng.random() < 0.6 else {}))
+            if not inside:
+                # interleave: open A, open B, A points.., B points.., close B, close A
+                body = [a[0], b[0]] + a[1:-1] + b[1:-1] + [b[-1], a[-1]]
+            else:
+                # run B lives entirely inside run A: A goes on taking data after B was closed
+                safe, inb, pending = [], False, set()
+                for i, n_ in enumerate(a[:-1]):
+                    if n_.get("cmd") == "create":
+                        inb = True
+                    elif n_.get("cmd") in ("save", "drop"):
+                        inb = False
+                    g = (n_.get("kw") or {}).get("group")
+                    if n_.get("cmd") == "wait":
+                        pending.discard(g)
+                    elif g is not None:
+                        pending.add(g)
+                    if not inb and not pending and n_.get("op") == "msg":
+                        # not inside an event bundle of A and nothing of A in flight (closing B is an implicit
+                        # checkpoint: a motion started before it would not be repeated by a later rewind)
+                        safe.append(i + 1)
+                cut = rng.choice(safe or [1])
+                # ... and something replayable of the outer plan follows the inner run before its next checkpoint
+                tail = [msg(S, "sleep", None, rng.choice([0.1, 0.5])), msg(S, "null")] if rng.random() < 0.6 else []
+                body = a[:cut] + b + tail + a[cut:]
         else:
             body = []
             for i in range(nruns):
